@@ -21,6 +21,7 @@ type Term struct {
 	V    ssa.Value
 	Typ  types.Type
 	str  string
+	env  *TB // closure terms: the builder of the creating function (resolves the captured variables)
 }
 
 func (t *Term) String() string {
@@ -203,6 +204,8 @@ type TB struct {
 	inprog map[ssa.Value]bool
 	depth  int
 	bind   map[*ssa.Parameter]*Term // parameters of an unknown helper bound to the caller's argument terms (deepInstrs)
+	fvbind map[*ssa.FreeVar]*Term   // captured variables of an inlined closure
+	stack  []*ssa.Function          // helpers being inlined (outermost first)
 }
 
 func NewTB() *TB { return &TB{memo: map[ssa.Value]*Term{}, inprog: map[ssa.Value]bool{}} }
@@ -244,6 +247,9 @@ func (b *TB) build(v ssa.Value) *Term {
 		}
 		return &Term{Op: "param", Name: v.Name()}
 	case *ssa.FreeVar:
+		if t, ok := b.fvbind[v]; ok {
+			return t
+		}
 		return &Term{Op: "freevar", Name: v.Name()}
 	case *ssa.Global:
 		return &Term{Op: "global", Name: v.Pkg.Pkg.Name() + "." + v.Name()}
@@ -254,6 +260,9 @@ func (b *TB) build(v ssa.Value) *Term {
 	case *ssa.FieldAddr:
 		return &Term{Op: "field", Name: fieldName(v.X.Type(), v.Field), Args: []*Term{b.Of(v.X)}}
 	case *ssa.Field:
+		if xt := b.Of(v.X); xt.Op == "struct" && v.Field < len(xt.Args) {
+			return xt.Args[v.Field]
+		}
 		return &Term{Op: "field", Name: fieldName(v.X.Type(), v.Field), Args: []*Term{b.Of(v.X)}}
 	case *ssa.UnOp:
 		if v.Op == token.MUL {
@@ -272,8 +281,14 @@ func (b *TB) build(v ssa.Value) *Term {
 	case *ssa.BinOp:
 		return &Term{Op: "bin", Name: v.Op.String(), Args: []*Term{b.Of(v.X), b.Of(v.Y)}}
 	case *ssa.Call:
+		if t := b.inlineTerm(v); t != nil {
+			return t
+		}
 		return b.callTerm(v.Common(), v)
 	case *ssa.Extract:
+		if tt := b.Of(v.Tuple); tt.Op == "tuple" && v.Index < len(tt.Args) {
+			return tt.Args[v.Index]
+		}
 		return &Term{Op: "ext", Name: fmt.Sprint(v.Index), Args: []*Term{b.Of(v.Tuple)}}
 	case *ssa.Phi:
 		t := &Term{Op: "phi"}
@@ -335,7 +350,7 @@ func (b *TB) build(v ssa.Value) *Term {
 	case *ssa.MakeChan:
 		return &Term{Op: "make", Name: "chan@" + v.Name()}
 	case *ssa.MakeClosure:
-		t := &Term{Op: "closure", Name: funcName(v.Fn.(*ssa.Function)), V: v}
+		t := &Term{Op: "closure", Name: funcName(v.Fn.(*ssa.Function)), V: v, env: b}
 		return t
 	case *ssa.Next:
 		return &Term{Op: "next", Name: "iter", Args: []*Term{b.Of(v.Iter)}}
@@ -343,6 +358,121 @@ func (b *TB) build(v ssa.Value) *Term {
 		return &Term{Op: "range", Name: "", Args: []*Term{b.Of(v.X)}}
 	}
 	return &Term{Op: "unknown", Name: fmt.Sprintf("%T", v)}
+}
+
+// inlineTerm: the value of a call of a module function the rule tables do not know (a helper extracted by a
+// refactoring), or of a function value that reached the call through such a helper's parameter, a captured
+// variable or a read-only dispatch table: the union of what the callee returns, with its parameters bound to the
+// argument terms. nil: the call stays opaque. Bounded: nesting depth 3, no recursion.
+func (b *TB) inlineTerm(call *ssa.Call) *Term {
+	c := call.Common()
+	if c.IsInvoke() || len(b.stack) >= 3 {
+		return nil
+	}
+	var h *ssa.Function
+	var clo *Term
+	if sc := c.StaticCallee(); sc != nil {
+		if _, direct := c.Value.(*ssa.MakeClosure); direct || !isUnknownHelper(sc) {
+			return nil
+		}
+		h = sc
+	} else {
+		switch c.Value.(type) {
+		case *ssa.Parameter, *ssa.FreeVar, *ssa.Extract, *ssa.Lookup:
+		default:
+			return nil
+		}
+		ft := b.Of(c.Value)
+		switch ft.Op {
+		case "closure":
+			mc, ok := ft.V.(*ssa.MakeClosure)
+			if !ok || ft.env == nil {
+				return nil
+			}
+			h, clo = mc.Fn.(*ssa.Function), ft
+		case "fn":
+			f, ok := ft.V.(*ssa.Function)
+			if !ok {
+				return nil
+			}
+			if !isUnknownHelper(f) && f.Parent() == nil {
+				// a named function behind a function value: the call reads as a static call of it
+				t := &Term{Op: "call", Name: funcName(f)}
+				for _, a := range c.Args {
+					t.Args = append(t.Args, b.Of(a))
+				}
+				return t
+			}
+			h = f
+		default:
+			return nil
+		}
+	}
+	if h == nil || len(h.Blocks) == 0 || !strings.HasPrefix(funcPkgPath(h), modPath) {
+		return nil
+	}
+	for _, s := range b.stack {
+		if s == h {
+			return nil
+		}
+	}
+	if calleesInclude(h, h, 0) {
+		return nil
+	}
+	child := NewTB()
+	child.stack = append(append([]*ssa.Function(nil), b.stack...), h)
+	child.bind = map[*ssa.Parameter]*Term{}
+	for i, p := range h.Params {
+		if i < len(c.Args) {
+			child.bind[p] = b.Of(c.Args[i])
+		}
+	}
+	if clo != nil {
+		mc := clo.V.(*ssa.MakeClosure)
+		child.fvbind = map[*ssa.FreeVar]*Term{}
+		for i, fv := range h.FreeVars {
+			if i < len(mc.Bindings) {
+				child.fvbind[fv] = clo.env.Of(mc.Bindings[i])
+			}
+		}
+	}
+	nres := h.Signature.Results().Len()
+	comps := make([]*Term, nres)
+	seen := make([]map[string]bool, nres)
+	for i := range comps {
+		comps[i] = &Term{Op: "phi"}
+		seen[i] = map[string]bool{}
+	}
+	for _, blk := range h.Blocks {
+		for _, in := range blk.Instrs {
+			ret, ok := in.(*ssa.Return)
+			if !ok || len(ret.Results) != nres {
+				continue
+			}
+			for i, r := range ret.Results {
+				rt := child.Of(r)
+				if !seen[i][rt.String()] {
+					seen[i][rt.String()] = true
+					comps[i].Args = append(comps[i].Args, rt)
+				}
+			}
+		}
+	}
+	for i, ct := range comps {
+		switch len(ct.Args) {
+		case 0:
+			comps[i] = &Term{Op: "unknown", Name: "no-return"}
+		case 1:
+			comps[i] = ct.Args[0]
+		}
+	}
+	switch nres {
+	case 0:
+		return nil
+	case 1:
+		return comps[0]
+	}
+	return &Term{Op: "tuple", Name: funcName(h), Args: comps}
 }
 
 func (b *TB) callTerm(c *ssa.CallCommon, v ssa.Value) *Term {
@@ -370,10 +500,52 @@ func (b *TB) cellValue(a *ssa.Alloc) *Term {
 		}
 	}
 	if len(t.Args) == 0 {
+		if st := b.structCell(a); st != nil {
+			return st
+		}
 		return &Term{Op: "const", Name: "zero"}
 	}
 	if len(t.Args) == 1 {
 		return t.Args[0]
+	}
+	return t
+}
+
+// structCell: a local struct that is only built field by field (a composite literal): the term of its value
+// lists the fields' values, so that a field read from a copy of it resolves to what was stored.
+func (b *TB) structCell(a *ssa.Alloc) *Term {
+	pt, ok := a.Type().Underlying().(*types.Pointer)
+	if !ok {
+		return nil
+	}
+	st, ok := pt.Elem().Underlying().(*types.Struct)
+	if !ok || a.Referrers() == nil {
+		return nil
+	}
+	t := &Term{Op: "struct", Name: shortType(pt.Elem())}
+	for i := 0; i < st.NumFields(); i++ {
+		t.Args = append(t.Args, &Term{Op: "const", Name: "zero"})
+	}
+	n := 0
+	for _, r := range *a.Referrers() {
+		fa, ok := r.(*ssa.FieldAddr)
+		if !ok || fa.Referrers() == nil {
+			continue
+		}
+		for _, u := range *fa.Referrers() {
+			if s, ok := u.(*ssa.Store); ok && s.Addr == fa {
+				ft := b.Of(s.Val)
+				if cur := t.Args[fa.Field]; cur.Op == "const" && cur.Name == "zero" {
+					t.Args[fa.Field] = ft
+				} else if cur.String() != ft.String() {
+					t.Args[fa.Field] = &Term{Op: "phi", Args: []*Term{cur, ft}}
+				}
+				n++
+			}
+		}
+	}
+	if n == 0 {
+		return nil
 	}
 	return t
 }
@@ -495,6 +667,14 @@ func EvalTerm(t *Term, asg Asg) (constant.Value, bool) {
 		}
 		if x.Kind() == constant.Int || x.Kind() == constant.Bool || x.Kind() == constant.String {
 			return x, true
+		}
+		return nil, false
+	case "ext":
+		// the presence flag of a lookup in a read-only dispatch table, for a key the assignment determines
+		if t.Name == "1" && len(t.Args) == 1 && t.Args[0].Op == "lookupok" {
+			if _, present, decided := roLookup(t.Args[0], asg); decided {
+				return constant.MakeBool(present), true
+			}
 		}
 		return nil, false
 	case "phi":
